@@ -121,8 +121,9 @@ def r_chain_split(ck: Checker) -> None:
         ck.need(src is not None, "split happens in the loop over the literals")
         comp = [n for n in find_nodes(func.node, lambda n: isinstance(n, (ast.For, ast.ListComp))) if any(x is site for x in ast.walk(n)) and "comparison2comparisonlist(" in unparse(n.iter if isinstance(n, ast.For) else n.generators[0].iter)]
         ck.need(len(comp) == 1, "one literal per link (loop over comparison2comparisonlist)")
-        txt = unparse(site).replace(" ", "")
-        m = re.fullmatch(r"Literal\(LOC,(\w+)\.sign,Comparison\((\w+),\[Guard\((\w+),(\w+)\)\]\)\)", txt)
+        txts = sorted({t.replace(" ", "") for t in itf.texts(site, site)}) or [unparse(site).replace(" ", "")]  # aliases of an inlined helper resolved
+        txt = txts[0]
+        m = re.fullmatch(r"Literal\(LOC,(\w+)\.sign,Comparison\((\w+),\[Guard\((\w+),(\w+)\)\]\)\)", txt) if len(txts) == 1 else None
         tg = comp[0] if isinstance(comp[0], ast.For) else comp[0].generators[0]  # type: ignore[attr-defined]
         ok = m is not None and m.group(1) == src and [m.group(2), m.group(3), m.group(4)] == [unparse(e) for e in tg.target.elts] and "comparison2comparisonlist(" in unparse(tg.iter)
         ck.add("every link becomes `sign (lhs op rhs)`", ok, func, site, f"`{txt}` for {unparse(tg.target)} in {unparse(tg.iter)}", "")
